@@ -228,6 +228,11 @@ func c12Binary(c *hx.Ctx, r *hx.RNG) {
 			p = full + int64(r.Range(0, 4))
 		}
 	}
+	if k >= 0 && r.Chance(8) {
+		// a non-negative net binary exponent is applied by a multiplication: nothing is allocated by the precision, so the
+		// receiver may have one from the top of the range (the value is then stored exactly)
+		p = int64(hugePrec(r))
+	}
 	what := fmt.Sprintf("Parse(%q, 0) prec=%d mode=%s", text, p, oracle.ModeNames[mode])
 	c.Note(what)
 	if c.Verbose {
